@@ -15,8 +15,8 @@ warnings.filterwarnings("ignore")
 from simkit import a_sim
 
 n = int(sys.argv[1]) if len(sys.argv) > 1 else 3000
-archs = sys.argv[2].split(",") if len(sys.argv) > 2 else ["x86_32", "arml"]
-feats = ["mem", "straddle", "stack", "call", "loop", "branch", "rep", "indirect", "smc", "ro", "multi", "exc"]
+archs = sys.argv[2].split(",") if len(sys.argv) > 2 else ["x86_32", "x86_64", "arml", "mips32l", "aarch64l"]
+feats = ["mem", "straddle", "stack", "call", "loop", "branch", "rep", "indirect", "smc", "ro", "multi", "exc", "exotic"]
 for arch in archs:
     rng = random.Random(12345)
     sa = a_sim.statement_assembler(arch)
